@@ -53,6 +53,15 @@ func main() {
 				fmt.Println("no function", name)
 			}
 		}
+	case "absint":
+		p, err := core.Load("/repo", "", nil)
+		if err != nil {
+			fmt.Println(err)
+			os.Exit(1)
+		}
+		for _, name := range os.Args[2:] {
+			checks.DebugE3(&checks.Ctx{P: p, Tier: "quick", VerifDir: "/verif", Property: "DBG"}, name)
+		}
 	case "list":
 		for _, id := range checks.IDs() {
 			fmt.Println(id)
